@@ -151,6 +151,8 @@ let with_stack (stack : string) (dl : deadline) (orc : oracles) (repair : bool) 
       | Ok (_, (_, w)) -> fin w
       | Panic -> Panic
       | OutOfFuel -> OutOfFuel)
+  | "norep" -> (
+      match r.run (default_replace pw) plain0 with Ok w -> fin w | Panic -> Panic | OutOfFuel -> OutOfFuel)
   | "replace_twice" -> (
       (* the same Replace adapter (its state carried over) runs the diff twice *)
       match r.run (replace_world pw !dbg) (rstate0, plain0) with
